@@ -241,4 +241,47 @@ def run(chk, facts_dir, tier):
                 else:
                     chk.ok("R13.5", "%s(.. %s ..) bound to %s" % (c.rsplit("::", 1)[-1], pn, sorted(names) or "a local value"), b.where(t["line"]))
     chk.floor("R13.5", n5, 8)
+
+    # ---- R13.6 the configuration domain on which the two kernels are compared
+    chk.rule("R13.6", "VALIDATED DOMAIN: AppConfig::validate reports NodeIndexOutOfBounds exactly on the edge `node.index >= node.count`: the storage kernel reduces the node "
+                      "index modulo the node count (an index equal to the count silently becomes node 0 and opens node 0's buckets) while the routing kernel compares the raw "
+                      "index and assigns it nothing, so an accepted out-of-range index is a configuration on which storage and routing disagree")
+    from ..gate import comparisons, switch_on, edge_dominates, linear, SWAP
+    vb = prog.body(CFG + "validate")
+    n6 = 0
+    good6 = False
+    seen6 = []
+    for b in prog.family(CFG + "validate"):
+        chk.analysed(b.path)
+        ev6 = Ev(prog, b)
+        errs = [i for i, j, s_ in b.assigns() if s_["rv"]["k"] == "agg" and str(s_["rv"].get("ak", "")).endswith("ValidationError::NodeIndexOutOfBounds")]
+        if not errs:
+            continue
+        n6 += len(errs)
+        for c in comparisons(prog, b, ev6):
+            def role(t):
+                names = {x[2] for x in walk(t) if isinstance(x, tuple) and x and x[0] == "field" and "NodeConfig" in str(x[3])}
+                return "index" if names == {"index"} else ("count" if names == {"count"} else None)
+            ra, rb = role(c["a"]), role(c["b"])
+            if {ra, rb} != {"index", "count"}:
+                continue
+            a, b_, op = (c["a"], c["b"], c["op"]) if ra == "index" else (c["b"], c["a"], SWAP[c["op"]])
+            sw = switch_on(b, c["sw_block"], c["lhs"]["l"])
+            if not sw:
+                continue
+            d = linear(b_)[1] - linear(a)[1]          # index OP count + d
+            for truth, dst in ((True, sw[0]), (False, sw[1])):
+                eff = op if truth else {"Ge": "Lt", "Gt": "Le", "Lt": "Ge", "Le": "Gt", "Eq": "Ne", "Ne": "Eq"}[op]
+                if not all(edge_dominates(b, c["sw_block"], dst, e) for e in errs):
+                    continue
+                exact = (eff == "Ge" and d == 0) or (eff == "Gt" and d == -1)
+                seen6.append("index %s count%+d" % (eff, d))
+                if exact:
+                    good6 = True
+                    chk.ok("R13.6", "NodeIndexOutOfBounds on `node.index >= node.count`", b.where(c["line"]))
+    if n6 == 0:
+        chk.fail("R13.6", CFG + "validate", "no-index-bound", "AppConfig::validate no longer reports NodeIndexOutOfBounds: any node index is accepted", vb)
+    elif not good6:
+        chk.fail("R13.6", CFG + "validate", "index-bound-inexact", "NodeIndexOutOfBounds is not reported exactly when node.index >= node.count (edges seen: %s): an index the storage "
+                 "kernel wraps onto another node is accepted" % (seen6 or "none"), vb)
     return {}
